@@ -38,6 +38,10 @@ def realize(spec):
         return h5py.Empty(spec.get("dt", "f4"))
     if t == "bool":
         return bool(spec["v"])
+    if t == "dt64":  # a scalar datetime stored the way h5py documents it (opaque dtype)
+        return np.array(spec["v"], dtype="M8[s]").astype(h5py.opaque_dtype(np.dtype("M8[s]")))
+    if t == "enum0":  # scalar of an enumerated type
+        return np.array(spec["v"], dtype=h5py.enum_dtype({"RED": 0, "GREEN": 1, "BLUE": 42}, basetype="i1"))
     if t == "strarr":  # array of variable-length (byte) strings, not necessarily valid UTF-8
         return np.array([bytes.fromhex(x) for x in spec["v"]], dtype=h5py.string_dtype())
     if t == "bad":  # values h5py refuses (the assignment must fail and change nothing)
